@@ -77,7 +77,7 @@ def grep_forbidden():
     return hits
 
 
-def audit(pid):
+def audit(pid, tier='quick'):
     """Build, then check every theorem registered for `pid`: present, sorry-free, axioms allowed.
     Returns dict(ok, obligations, discharged, problems, build_s, checker_cmd)."""
     names = theorems_for(pid)
@@ -125,6 +125,23 @@ def audit(pid):
         res['discharged'] += 1
     if p.returncode != 0 and not res['problems']:
         res['problems'].append('axiom audit failed: ' + text[-800:])
+    if tier == 'thorough' and not res['problems']:
+        # independent re-check of the compiled .olean files of every module the property theorems depend on
+        mods = []
+        for root, _, files in os.walk(os.path.join(lean.LEAN_DIR, 'Mrm')):
+            for fn in files:
+                if fn.endswith('.lean') and not fn.startswith('Driver'):
+                    rel = os.path.relpath(os.path.join(root, fn), lean.LEAN_DIR)[:-5]
+                    mods.append(rel.replace(os.sep, '.'))
+        t0 = time.time()
+        try:
+            q = subprocess.run(['lake', 'env', 'leanchecker'] + sorted(mods), cwd=lean.LEAN_DIR, stdout=subprocess.PIPE,
+                               stderr=subprocess.STDOUT, text=True, timeout=3000)
+            res['leanchecker'] = {'modules': len(mods), 'exit': q.returncode, 'seconds': round(time.time() - t0, 1)}
+            if q.returncode != 0:
+                res['problems'].append('leanchecker rejected the compiled modules: ' + q.stdout[-600:])
+        except subprocess.TimeoutExpired:
+            res['leanchecker'] = {'modules': len(mods), 'exit': 'timeout'}
     res['ok'] = not res['problems'] and res['discharged'] == res['obligations']
     return res
 
@@ -180,6 +197,8 @@ def write_evidence(pid, tier, seed, aud, oc, wall, violations, extra_assumptions
         'distribution': dict(sorted(oc.stats.items())),
         'lake_build_s': aud['build_s'],
     }
+    if 'leanchecker' in aud:
+        cov['leanchecker'] = aud['leanchecker']
     cov.update(oc.extra)
     ev = {
         'property_id': pid, 'tier': tier, 'seed': seed, 'level': 'proof', 'coverage': cov,
@@ -195,7 +214,7 @@ def decide(pid, tier, seed, run, signatures=None, search=None, assumptions=()):
     focused neighbourhood search used when the correspondence or a proof obligation is broken."""
     t0 = time.time()
     signatures = signatures or {}
-    aud = audit(pid)
+    aud = audit(pid, tier)
     oc = run(tier, seed)
     lines = []
     n_viol = 0
